@@ -7,8 +7,8 @@ every case below drives one genuine defect listed in DESIGN.md section 5 with it
 
 On the pinned tree it prints FAIL for the listed defects; with design/planned_repairs applied it
 prints PASS everywhere except the defects that are recorded as known findings (C04 deepcopy of a
-Mapping attribute, C08 cancellation while disposables enter, C11 stream context, C12 equal
-receivers), which are marked KNOWN.
+Mapping attribute, C07 cancellation absorbed by the task group, C08 cancellation while disposables
+enter / pending while they exit, C11 stream context, C12 equal receivers), which are marked KNOWN.
 The static checks never import or run haiway; this script only shows that what they report is
 real behaviour and not a false alarm.
 """
@@ -138,6 +138,20 @@ def sync_cases() -> None:
         return S(s=[1]).s == (1,)
 
     attempt("C05 typing.Sequence[int] annotation", typing_sequence)
+
+    def parametrised_alias() -> bool:
+        from haiway import frozenlist
+
+        class WithAlias(State):
+            items: frozenlist[int]
+
+        try:
+            WithAlias(items=("a", "b"))  # type: ignore[arg-type]
+        except (TypeError, ValueError, ExceptionGroup):
+            return WithAlias(items=(1, 2)).items == (1, 2)
+        return False
+
+    attempt("C05 frozenlist[int] rejects strings (parametrised alias keeps its arguments)", parametrised_alias)
 
     def two_parameters() -> bool:
         class Pair[A, B](State):
@@ -524,6 +538,135 @@ async def async_cases() -> None:
         )
 
     await aattempt("C19 % in the scope name does not lose the message", c19_percent)
+
+    # ---- found while hardening the checks against the independent changes (DESIGN.md 8.2)
+    async def c18_traced_cls_keyword() -> bool:
+        from haiway import traced
+
+        @traced
+        def make(*, cls: type = int) -> str:
+            return cls.__name__
+
+        async with ctx.scope("root"):
+            return make(cls=str) == "str"
+
+    await aattempt("C18 traced function takes a keyword named cls", c18_traced_cls_keyword)
+
+    async def c06_cleanup_cancelled_hang() -> bool:
+        events: list[str] = []
+
+        @asynccontextmanager
+        async def slow_dispose():
+            yield None
+            await asyncio.sleep(0.2)
+
+        async def blocked() -> None:
+            try:
+                await asyncio.Event().wait()
+            except asyncio.CancelledError:
+                events.append("child cancelled")
+                raise
+
+        async def victim() -> None:
+            async with ctx.scope("s", disposables=[slow_dispose()]):
+                ctx.spawn(blocked)
+                await asyncio.sleep(0)
+
+        task = asyncio.create_task(victim())
+        await asyncio.sleep(0.05)
+        task.cancel()
+        done, _ = await asyncio.wait([task], timeout=1.0)
+        if not done:
+            task.cancel()
+            await asyncio.wait([task], timeout=1.0)
+            return False
+        return task.cancelled() and "child cancelled" in events
+
+    await aattempt("C06/C07 task cancelled while a disposable closes ends cancelled, children cancelled", c06_cleanup_cancelled_hang)
+
+    async def c18_stacked_wrappers() -> bool:
+        async def slow(x: int) -> int:
+            await asyncio.sleep(0.3)
+            return x
+
+        stacked = cache(timeout(0.05)(slow))
+        try:
+            await stacked(1)
+        except TimeoutError:
+            return True
+        return False
+
+    await aattempt("C18 cache(timeout(f)) still times out (wrapper state survives mimic)", c18_stacked_wrappers)
+
+    async def c18_self_keyword() -> bool:
+        def f(self: object = None, x: int = 0) -> tuple[object, int]:
+            return (self, x)
+
+        async def af(self: object = None, x: int = 0) -> tuple[object, int]:
+            return (self, x)
+
+        return (
+            await asynchronous(f)(self=1, x=2) == (1, 2)
+            and cache(f)(self=1, x=2) == (1, 2)
+            and await cache(af)(self=1, x=2) == (1, 2)
+            and await throttle(af)(self=1, x=2) == (1, 2)
+            and await timeout(1)(af)(self=1, x=2) == (1, 2)
+        )
+
+    await aattempt("C18 wrapped functions take a keyword named self", c18_self_keyword)
+
+    async def c18_class_level_access() -> bool:
+        class K:
+            @asynchronous
+            def m(self, x: int) -> tuple[str, int]:
+                return (type(self).__name__, x)
+
+        return await K.m(K(), 2) == ("K", 2)  # type: ignore[call-arg]
+
+    await aattempt("C18 asynchronous method called through the class", c18_class_level_access)
+
+    async def c07_cancel_absorbed_by_group() -> bool:
+        async def child() -> None:
+            try:
+                await asyncio.Event().wait()
+            except asyncio.CancelledError:
+                raise RuntimeError("child fails while being cancelled") from None
+
+        async def victim() -> str:
+            async with ctx.scope("s"):
+                ctx.spawn(child)
+                await asyncio.sleep(0)
+            await asyncio.sleep(0.05)
+            return "finished normally"
+
+        task = asyncio.create_task(victim())
+        await asyncio.sleep(0.02)
+        task.cancel()
+        await asyncio.wait([task])
+        return task.cancelled()
+
+    await aattempt("C07 cancellation absorbed by the task group while the scope exit waits", c07_cancel_absorbed_by_group, known=True)
+
+    async def c08_exit_cancelled_unstarted() -> bool:
+        log: list[str] = []
+
+        @asynccontextmanager
+        async def disp(name: str):
+            log.append(f"enter {name}")
+            try:
+                yield None
+            finally:
+                log.append(f"exit {name}")
+
+        async def victim() -> None:
+            async with ctx.scope("s", disposables=[disp("a"), disp("b")]):
+                ctx.cancel()
+
+        task = asyncio.create_task(victim())
+        await asyncio.wait([task])
+        return "exit a" in log and "exit b" in log
+
+    await aattempt("C08 disposables exited although a cancellation is pending when the scope is left", c08_exit_cancelled_unstarted, known=True)
 
 
 if __name__ == "__main__":
